@@ -122,19 +122,37 @@ SLUGS4 = {
     "C17_change1": ("debug-helper-returns-before-unlock", "Mutex/RwLock Debug share a helper that try-locks, writes with `?` and then unlocks by hand: a failing formatter / panicking payload Debug leaves the lock held", "formatting a free lock into a sink that returns Err (or a payload whose Debug fails) at that moment"),
 }
 
+SLUGS5 = {
+    "C01_change1": ("killed-lock-release-skipped", "Mutex::raw_unlock_write / RwLock::raw_unlock_{write,read} return at once when the lock has been killed: a holder's release is skipped and threads already parked in that lock wait for ever", "a lock killed (another thread's raw op panics) while it is held and a third thread is blocked on it"),
+    "C02_change1": ("poisonable-scoped-read-drops-guard-at-once", "Poisonable::scoped_read binds its releasing read guard to `_`: shared access is given back before the closure runs", "Poisonable over RwLock(s), blocking scoped_read, a writer arriving during the closure"),
+    "C04_change1": ("slice-get-ptrs-empty-first-element", "[T; N] / Box<[T]> / Vec<T>::get_ptrs share a helper that returns early when the FIRST element lists no locks: [[], [a, b]] lists nothing", "depth-2 nesting of slice-like containers with an empty inner container in position 0"),
+    "C05_change1": ("killed-lock-release-skipped-2", "same site as C01-7 (independently seeded): leaf release functions return early once the kill flag is set", "a lock killed by another thread's panicking raw op while a valid hold on it is alive"),
+    "C06_change1": ("threadkey-get-refuses-while-panicking", "ThreadKey::get returns None whenever thread::panicking(), even if the thread's key is free", "get() from a destructor during an unwind while no key of the thread is alive"),
+    "C07_change1": ("boxed-slice-owned-for-static-lockable", "unsafe impl<T: Lockable + 'static> OwnedLockable for Box<[T]> (was T: OwnedLockable): a boxed slice of &'static locks counts as owned", "new / new_ref over Box<[&'static Mutex]> containing a duplicate"),
+    "C08_change1": ("ordered-write-backoff-retakes-lower-locks", "ordered_write tries later locks first; on refusal it releases the prefix, blocks on the refused lock, keeps it and re-takes the lower ones with blocking calls", "write mode, >= 2 locks, contention on a lock other than the lowest at the moment the collection reaches it"),
+    "C09_change1": ("poisonable-raw-ops-flatten-retrying-child", "Poisonable's RawLock raw_* go through get_locks_unsorted + ordered_* instead of forwarding to the inner lock: a wrapped retrying collection blocks member by member in listing order", "Poisonable<RetryingLockCollection>, blocking scoped call, contention on a non-first member"),
+    "C10_change1": ("scoped-try-lock-kills-inner-instead-of-poisoning", "the unwind handler of Poisonable::scoped_try_lock calls self.poison() (RawLock::poison = kill the inner lock) instead of self.poisoned.poison()", "Poisonable scoped_try_lock that succeeds with a panicking closure"),
+    "C12_change1": ("poisonable-scoped-acquires-inside-protected-closure", "Poisonable::scoped_lock / scoped_read acquire inside the handle_unwind closure: a panic during acquisition runs the handler, which poisons and releases the whole wrapped lock / collection (locks never held or already rolled back)", "Poisonable over a collection, blocking scoped call, a raw lock op that panics during acquisition"),
+    "C13_change1": ("retry-cached-lock-count-stale-after-extend", "RetryingLockCollection caches its leaf count (OnceLock) and takes the empty-collection early return from it; Extend / AsMut / iter_mut do not reset it", "a retrying collection operated on while empty and then grown with extend(), then any try / lock"),
+    "C14_change1": ("mutex-raw-accessor-safe", "Mutex::raw() loses `unsafe`: lock_api::RawMutex::lock is safe, so m.raw().lock() acquires without a key", "calling raw().lock() in safe code, then ThreadKey::get()"),
+    "C15_change1": ("owned-default-derive-drops-bound", "OwnedLockCollection derives Default (L: Default) instead of the hand-written impl with L: OwnedLockable", "OwnedLockCollection::<Vec<&Mutex>>::default() filled through child_mut()"),
+    "C16_change1": ("into-inner-asserts-not-killed", "Mutex/RwLock::into_inner assert the lock is not killed: consuming a collection with a killed member panics half way ([T; N]::into_inner leaks the values already moved)", "a lock whose raw op panicked once, then into_inner of it or of a collection holding it"),
+    "C17_change1": ("rwlock-try-read-no-key-then-some", "RwLock::try_read_no_key uses then_some(RwLockReadRef(..)): a refused try builds the guard and drops it, releasing shared access never taken", "formatting an RwLock whose try-read is refused (write-held, or read-held with a writer queued)"),
+}
+
 ROOT = "/verif/seeded"
 
 
 def main():
     os.makedirs(ROOT, exist_ok=True)
-    items = [(1, k, v) for k, v in sorted(SLUGS.items())] + [(2, k, v) for k, v in sorted(SLUGS2.items())] + [(3, k, v) for k, v in sorted(SLUGS3.items())] + [(4, k, v) for k, v in sorted(SLUGS4.items())]
+    items = [(1, k, v) for k, v in sorted(SLUGS.items())] + [(2, k, v) for k, v in sorted(SLUGS2.items())] + [(3, k, v) for k, v in sorted(SLUGS3.items())] + [(4, k, v) for k, v in sorted(SLUGS4.items())] + [(5, k, v) for k, v in sorted(SLUGS5.items())]
     for rnd, key, (slug, what, needs) in items:
         prop, ch = key.split("_")
-        src = {1: "/tmp/seed-%s/%s", 2: "/tmp/seed2-%s/%s", 3: "/tmp/seed3-%s/%s", 4: "/tmp/seed4-%s/%s"}[rnd] % (prop, ch)
+        src = {1: "/tmp/seed-%s/%s", 2: "/tmp/seed2-%s/%s", 3: "/tmp/seed3-%s/%s", 4: "/tmp/seed4-%s/%s", 5: "/tmp/seed5-%s/%s"}[rnd] % (prop, ch)
         if not os.path.isdir(src):
             print("missing", src)
             continue
-        sid = "%s-%s-%s" % (prop, str(int(ch[-1]) + {1: 0, 2: 2, 3: 4, 4: 5}[rnd]), slug)
+        sid = "%s-%s-%s" % (prop, str(int(ch[-1]) + {1: 0, 2: 2, 3: 4, 4: 5, 5: 6}[rnd]), slug)
         d = os.path.join(ROOT, sid)
         os.makedirs(d, exist_ok=True)
         shutil.copy(os.path.join(src, "patch.diff"), os.path.join(d, "patch.diff"))
@@ -145,7 +163,7 @@ def main():
         if os.path.exists(os.path.join(src, "README.md")):
             shutil.copy(os.path.join(src, "README.md"), os.path.join(d, "AUTHOR_README.md"))
         verify = {}
-        vf = {1: "/tmp/verify-results/%s.json", 2: "/tmp/verify2-results/%s.json", 3: "/tmp/verify3-results/%s.json", 4: "/tmp/verify4-results/%s.json"}[rnd] % key
+        vf = {1: "/tmp/verify-results/%s.json", 2: "/tmp/verify2-results/%s.json", 3: "/tmp/verify3-results/%s.json", 4: "/tmp/verify4-results/%s.json", 5: "/tmp/verify5-results/%s.json"}[rnd] % key
         if os.path.exists(vf):
             try:
                 verify = json.load(open(vf))
@@ -154,7 +172,7 @@ def main():
             except Exception:
                 pass
         detect = {}
-        df = {1: "/tmp/detect/results/%s.json", 2: "/tmp/detect/results2/%s.json", 3: "/tmp/detect/results3/%s.json", 4: "/tmp/detect/results4/%s.json"}[rnd] % key
+        df = {1: "/tmp/detect/results/%s.json", 2: "/tmp/detect/results2/%s.json", 3: "/tmp/detect/results3/%s.json", 4: "/tmp/detect/results4/%s.json", 5: "/tmp/detect/results5/%s.json"}[rnd] % key
         if os.path.exists(df):
             try:
                 detect = json.load(open(df))
@@ -162,7 +180,7 @@ def main():
                 pass
         # final run of the property's own check with the committed machinery, on /repo itself
         final = {}
-        ff = {1: "/tmp/detect/final/%s.json", 2: "/tmp/detect/final2/%s.json", 3: "/tmp/detect/final3/%s.json", 4: "/tmp/detect/final4/%s.json"}[rnd] % key
+        ff = {1: "/tmp/detect/final/%s.json", 2: "/tmp/detect/final2/%s.json", 3: "/tmp/detect/final3/%s.json", 4: "/tmp/detect/final4/%s.json", 5: "/tmp/detect/final5/%s.json"}[rnd] % key
         if os.path.exists(ff):
             try:
                 final = json.load(open(ff))
@@ -188,7 +206,7 @@ def main():
             origin="round %d: written by an independent sub-agent that saw only the property text%s and a scratch worktree of /repo" % (rnd, "" if rnd == 1 else " (plus one-line descriptions of the earlier rounds' changes, to avoid repeats)"),
             confirmed=dict(
                 how="lib/seedtest.py verify (scratch worktree of /repo at HEAD): patch applies; cargo test --offline --workspace passes with the patch; demo.rs %s" % (
-                    "does not compile without the patch and compiles + shows the harm with it" if prop in ("C14", "C15") else "passes without the patch and fails with it"),
+                    "does not compile without the patch and compiles + shows the harm with it" if (prop in ("C14", "C15") or verify.get("demo_passes_without_change") is False) else "passes without the patch and fails with it"),
                 result=verify,
             ),
             detection=dict(
